@@ -67,11 +67,29 @@ def check_acquire_inside(ctx, repo, wname, acquire_stub, release_stub, collectio
     if not ok:
         return
     # inner: acquire first (inside the protected region, so a partial acquire is undone), then the wrapped plan, whose value is returned
+    # the inner plan seen flat: its own acquire helper (a sibling nested generator) spliced in where it is run
+    flat_inner = q.flat_view(inner_f, scope=f.node)
     iy = yfs(inner_f.node)
     acq_f = local(repo, f, callee_name(iy[0]) or "") if iy else None
     if acq_f is None and iy and callee_name(iy[0]) == acquire_stub:
         acq_f = inner_f  # the acquire stub is yielded from directly, without a local helper generator around it
-    ok = len(iy) == 2 and acq_f is not None and A.norm(iy[1]) == "plan"
+    if acq_f is None:
+        # the acquire messages are written in line in the inner plan
+        inline_acq = [n for n in A.walk_local(flat_inner.node) if (isinstance(n, ast.Yield) and isinstance(n.value, ast.Call) and A.call_name(n.value) == "Msg" and n.value.args
+                                                                  and A.const_str(n.value.args[0]) == acquire_stub)
+                      or (isinstance(n, ast.YieldFrom) and callee_name(n.value) == acquire_stub)]
+        if inline_acq:
+            acq_f = flat_inner
+    fy = yfs(flat_inner.node)
+    plan_last = bool(fy) and A.norm(fy[-1]) == "plan" and sum(1 for x in fy if A.norm(x) == "plan") == 1
+    # every acquire yield precedes the wrapped plan
+    order_ok = True
+    if acq_f is not None and plan_last:
+        ln_plan = fy[-1].lineno
+        for n in A.walk_local(flat_inner.node):
+            if isinstance(n, (ast.Yield, ast.YieldFrom)) and n is not None and getattr(n, "lineno", 0) > ln_plan:
+                order_ok = False
+    ok = acq_f is not None and plan_last and order_ok and (len(iy) == 2 or acq_f is flat_inner)
     ctx.ob(rule, cname(inner_f, None, "acquire (inside the protected plan), then the wrapped plan"), ok,
            "" if ok else f"inner plan yields from {[A.norm(x) for x in iy]}", nontrivial=True, where=where(inner_f, inner_f.node))
     rets = [s for s in A.walk_stmts(inner_f.node.body) if isinstance(s, ast.Return)]
@@ -120,8 +138,12 @@ def run(ctx):
     check_acquire_inside(ctx, repo, "subs_wrapper", "subscribe", "unsubscribe", "", rule="C23.D1-release-is-final-plan")
     f = repo.func(PP, "subs_wrapper")
     sub, uns = local(repo, f, "_subscribe"), local(repo, f, "_unsubscribe")
-    ok = sub is not None and any(A.norm(s) == "tokens.add(token)" for s in A.walk_stmts(sub.node.body)) and any(
-        isinstance(s, ast.Assign) and A.norm(s.targets[0]) == "token" and isinstance(s.value, ast.Yield) and "'subscribe'" in A.norm(s.value) for s in A.walk_stmts(sub.node.body))
+    if sub is None:
+        sub = local(repo, f, "_inner_plan")  # the subscriptions may be made in line in the inner plan
+    ok = sub is not None and ((any(A.norm(s) == "tokens.add(token)" for s in A.walk_stmts(sub.node.body)) and any(
+        isinstance(s, ast.Assign) and A.norm(s.targets[0]) == "token" and isinstance(s.value, ast.Yield) and "'subscribe'" in A.norm(s.value) for s in A.walk_stmts(sub.node.body)))
+        or any(isinstance(s, ast.Expr) and isinstance(s.value, ast.Call) and A.call_name(s.value) == "tokens.add" and len(s.value.args) == 1
+               and isinstance(s.value.args[0], ast.Yield) and "'subscribe'" in A.norm(s.value.args[0]) for s in A.walk_stmts(sub.node.body)))
     ctx.ob("C23.D2-same-collection", cname(f, None, "every token returned by 'subscribe' is recorded"), ok, "" if ok else "tokens not recorded", where=where(f, f.node))
     ok = uns is not None and any(isinstance(s, ast.For) and A.norm(s.iter) == "tokens" and any(A.is_msg_yield(n, "unsubscribe") and "token=token" in A.norm(n) for n in A.walk_local(s))
                                  for s in A.walk_stmts(uns.node.body))
@@ -130,6 +152,8 @@ def run(ctx):
     check_acquire_inside(ctx, repo, "suspend_wrapper", "install_suspender", "remove_suspender", "", rule="C23.D1-release-is-final-plan")
     f = repo.func(PP, "suspend_wrapper")
     ins, rem = local(repo, f, "_install"), local(repo, f, "_remove")
+    if ins is None:
+        ins = local(repo, f, "_inner_plan")  # installed in line in the inner plan
     ok = ins is not None and rem is not None and all(
         any(isinstance(s, ast.For) and A.norm(s.iter) == "suspenders" and any(A.is_msg_yield(n, cmd) and A.norm(n.value.args[2]) == A.norm(s.target) for n in A.walk_local(s))
             for s in A.walk_stmts(g.node.body)) for g, cmd in ((ins, "install_suspender"), (rem, "remove_suspender")))
@@ -144,8 +168,9 @@ def run(ctx):
     ctx.ob("C23.D2-reverse-order", cname(f, None, "unstage_all(*reversed(devices_staged))"), ok, "" if ok else "unstage order / coverage changed", where=where(f, f.node))
     ng = local(repo, f, "inner.new_gen")
     seq = [A.norm(s) for s in A.walk_stmts(ng.node.body)] if ng is not None else []
+    ext = next((t for t in seq if t in ("devices_staged.extend(ret)", "devices_staged.extend([root] if ret is None else ret)", "devices_staged.extend(ret if ret is not None else [root])")), None)
     ok = ng is not None and any(t.startswith("ret = (yield Msg('stage', root))") or t.startswith("ret = yield Msg('stage', root)") for t in seq) \
-        and "devices_staged.extend(ret)" in seq and seq.index("devices_staged.extend(ret)") < seq.index("yield msg")
+        and ext is not None and "yield msg" in seq and seq.index(ext) < seq.index("yield msg")
     ctx.ob("C23.D2-same-collection", cname(f, None, "what 'stage' returned is recorded before the original message runs"), ok, "" if ok else "staged devices are not recorded", where=where(f, f.node))
     inner = local(repo, f, "inner")
     ok = inner is not None and "msg.obj not in devices_staged" in A.norm(inner.node) and "root = root_ancestor(msg.obj)" in A.norm(inner.node)
@@ -229,7 +254,7 @@ def run(ctx):
     txt = A.norm(f.node)
     ok = all(f"for flyer in flyers]" in txt.split(f"{nm} =")[1].split("\n")[0] for nm in ("kickoff_msgs", "complete_msgs", "collect_msgs"))
     ctx.ob("C23.D3-inserted-around-run", cname(f, None, "kickoff / complete / collect lists built from the same flyers"), ok, "" if ok else "lists diverge", where=where(f, f.node))
-    ok = "complete_msgs += [Msg('wait', None, group=grp2)]" in txt
+    ok = "complete_msgs += [Msg('wait', None, group=grp2)]" in txt or "complete_msgs.append(Msg('wait', None, group=grp2))" in txt
     ctx.ob("C23.D3-inserted-around-run", cname(f, None, "completion is waited for before collecting"), ok, "" if ok else "no wait between complete and collect", where=where(f, f.node))
     # unstage_all / stage_all cover every argument
     for nm, cmd in (("stage_all", "stage"), ("unstage_all", "unstage")):
